@@ -3,7 +3,8 @@ CONSTANTS NPts = 6
           NSlots = 3
           StitchCfg <- StitchSmall
 INIT Init
-NEXT Eval
+NEXT Next
+PROPERTY ArgsFrame
 INVARIANT SliceSub
 INVARIANT Unbounded
 INVARIANT OneSided
